@@ -39,6 +39,12 @@ func runC16(c *core.Ctx) {
 	noneRate := []int{0, 0, 10, 40}[t.Draw(4)]
 	req.Plan = func(n int) string { return "ok" }
 	m := bitcoin_reader.NewBlockManager(rec, req, concurrent, delay)
+	// stalled goroutine faults: the code's marked scheduling points may hold a goroutine until released
+	parkRate := []int{0, 6, 3}[t.Draw(3)]
+	parker := bw.NewParker(t.Draw, parkRate)
+	bitcoin_reader.SimYield = parker.Hook
+	defer func() { bitcoin_reader.SimYield = nil }()
+	defer parker.ReleaseAll()
 	interrupt := make(chan interface{})
 	interrupted := false
 	mDone := make(chan error, 1)
@@ -184,7 +190,7 @@ func runC16(c *core.Ctx) {
 						c.Fault("source:drop-after-cancel")
 						s.Dropped = true
 						endStream(s)
-						s.OnStop(ctx)
+						go s.OnStop(ctx)
 					}})
 				}
 				continue
@@ -215,7 +221,7 @@ func runC16(c *core.Ctx) {
 					acts = append(acts, action{fmt.Sprintf("source%d drops before start", s.N), func() {
 						s.Dropped = true
 						c.Fault("source:drop-before-start")
-						s.OnStop(ctx)
+						go s.OnStop(ctx)
 					}})
 				}
 				continue
@@ -236,7 +242,7 @@ func runC16(c *core.Ctx) {
 							c.Fault("source:drop-mid-block")
 							s.Dropped = true
 							endStream(s)
-							s.OnStop(ctx)
+							go s.OnStop(ctx)
 						}})
 					}
 				} else {
@@ -270,6 +276,16 @@ func runC16(c *core.Ctx) {
 				interrupted = true
 				c.Fault("shutdown")
 				close(interrupt)
+			}})
+		}
+		if !faulty {
+			parker.ReleaseAll() // no stalls once faults stop
+		}
+		for _, g := range parker.List() {
+			g := g
+			acts = append(acts, action{fmt.Sprintf("release %s", g.Site), func() {
+				c.Fault("stalled-goroutine-released")
+				parker.Release(g)
 			}})
 		}
 		durs := []time.Duration{time.Second, delay, 10 * time.Second, 2 * time.Minute, time.Hour}
@@ -355,6 +371,10 @@ func runC16(c *core.Ctx) {
 		}
 	}
 	// shutdown: everything must return and the downloader registry must be empty
+	parker.ReleaseAll()
+	if parker.Held > 0 {
+		c.Probe("run-with-stalled-goroutines")
+	}
 	if !interrupted {
 		interrupted = true
 		close(interrupt)
@@ -372,7 +392,7 @@ func runC16(c *core.Ctx) {
 				if s.Started && !s.Ended {
 					endStream(s)
 				}
-				s.OnStop(ctx)
+				go s.OnStop(ctx)
 				continue
 			}
 			if s.Started && !s.Ended {
@@ -419,12 +439,12 @@ func compatible(a, b string) bool {
 func init() {
 	core.Register(&core.Property{
 		ID: "C16", Engine: "G", Level: "exploration", Bubble: true,
-		Rule: "each run: a real BlockManager.Run with real BlockDownloaders (ConcurrentBlockRequests 1-4, request delay 1/5/30 s) serves 1-3 queued requests from simulated sources; at every quiescent point the tape picks one action among: a source starts its handler, hands over the next transaction, ends its stream, cuts it, drops before/after start (onStop), serves a wrong block, the requester aborts, shutdown, or the clock advances (1 s .. 1 h, firing the start, download, cancel-poll and request-delay timers); cancellation is answered started/not-started by the source's real state; then a fault-free epilogue with honest sources; non-trivial = every run; distinct = distinct hash of the canonical event log (the sequence of chosen actions)",
+		Rule: "each run: a real BlockManager.Run with real BlockDownloaders (ConcurrentBlockRequests 1-4, request delay 1/5/30 s) serves 1-3 queued requests from simulated sources; at every quiescent point the tape picks one action among: a source starts its handler, hands over the next transaction, ends its stream, cuts it, drops before/after start (onStop), serves a wrong block, the requester aborts, shutdown, or the clock advances (1 s .. 1 h, firing the start, download, cancel-poll and request-delay timers), or a goroutine held at one of the code's marked scheduling points (verif hook SimYield: a stalled goroutine fault, planned from the tape per site and arrival) is released; cancellation is answered started/not-started by the source's real state; then a fault-free epilogue with honest sources; non-trivial = every run; distinct = distinct hash of the canonical event log (the sequence of chosen actions)",
 		Real: blockReal, Stub: blockStub,
 		Assumptions: []string{"interleavings are controlled at the granularity of source/requester/timer actions; between two quiescent points woken goroutines run in the Go runtime's order and a select with several ready cases is resolved by the runtime (not replayable from the tape); the oracles are order independent",
 			"a requester stops listening when shutdown is signalled, as NodeManager.synchronizeBlocks does"},
-		FaultKinds: []string{"source:not-available", "source:wrong-block", "source:drop-before-start", "source:stream-cut", "source:drop-mid-block", "request:abort", "shutdown", "source:drop-during-shutdown", "source:drop-after-cancel"},
-		ProbeNames: []string{"terminal:completed", "terminal:value:Block Aborted", "abort-acknowledged", "abort-and-shutdown-same-instant", "two-actions-same-instant", "handler-start-and-shutdown-same-instant"},
+		FaultKinds: []string{"source:not-available", "source:wrong-block", "source:drop-before-start", "source:stream-cut", "source:drop-mid-block", "request:abort", "shutdown", "source:drop-during-shutdown", "source:drop-after-cancel", "stalled-goroutine-released"},
+		ProbeNames: []string{"terminal:completed", "terminal:value:Block Aborted", "abort-acknowledged", "abort-and-shutdown-same-instant", "two-actions-same-instant", "handler-start-and-shutdown-same-instant", "run-with-stalled-goroutines"},
 		Run:          runC16,
 		QuickSeconds: 25, ThoroughSeconds: 900, MinRuns: 300, BatchSize: 25, RunTimeoutSeconds: 300,
 	})
